@@ -217,6 +217,17 @@ def judge_3d(case, rec):
             sigs.append(np.asarray(p3.counts).tobytes())
         except Exception:  # noqa
             pass
+        if k == len(parts) - 1:
+            # the partitions are asked for a second time after all of them were read: the
+            # last one must still be the analysis of the same respondents
+            again = cube3.partitions
+            rec.compared()
+            if len(again) != len(parts):
+                rec.violation("second request for the partitions yields %d, first %d" % (
+                    len(again), len(parts)), "npartitions-again")
+            else:
+                compare_parts(again[k], p2, rec, "slice %d (partitions requested again):" % k,
+                              population=case["population"])
     if len(set(sigs)) >= 2:
         rec.nontrivial()
 
